@@ -168,7 +168,11 @@ class CallModel:
             if not isinstance(v, VList):
                 raise Unsupported("call['GT'] = %r" % (v,))
             if not isinstance(v.elem, OPT):
-                v = VList(OPTINT, z3.Lambda([_I], OPTINT.dt.some(v.arr[_I])), v.len)
+                # a tuple of plain ints: the stored genotype is the same sequence with every allele known (a named array with its defining axiom rather than a
+                # lambda: quantified facts about the genotype instantiate on it)
+                wrapped = z3.Array(fresh_name("gt.arr"), z3.IntSort(), OPTINT.dt)
+                st.assume(z3.ForAll([_I], wrapped[_I] == OPTINT.dt.some(v.arr[_I]), patterns=[wrapped[_I]]))
+                v = VList(OPTINT, wrapped, v.len)
             eng.store_field(st, obj, "gt", v)
             eng.store_field(st, obj, "gt_none", z3.BoolVal(False))
             eng.store_field(st, obj, "ph", VSet(INT, z3.K(z3.IntSort(), z3.BoolVal(False))))      # pysam writes unphased alleles
